@@ -83,7 +83,7 @@ pub fn long_payloads(tier: Tier, alpha: &[u8]) -> Vec<Vec<u8>> {
     }
     if tier == Tier::Quick {
         // a handful of payloads beyond 2^10, 2^13 and 2^16 also in the quick tier
-        for &l in &[1023usize, 1024, 1025, 8191, 8192, 8193, 65535, 65536, 65537] {
+        for &l in &[1023usize, 1024, 1025, 2047, 2048, 2049, 4093, 4094, 4095, 4096, 4097, 8191, 8192, 8193, 16383, 16384, 16385, 32767, 32768, 32769, 65535, 65536, 65537] {
             for f in 0..NFILL {
                 v.push(filler(f, l));
             }
@@ -98,6 +98,7 @@ pub fn long_payloads(tier: Tier, alpha: &[u8]) -> Vec<Vec<u8>> {
     };
     let mut lens: Vec<usize> = (10..=sweep_to).collect();
     if tier == Tier::Thorough {
+        lens.extend(4080..=4110);
         lens.extend(8150..=8250);
         lens.extend(16380..=16390);
         lens.extend(32760..=32775);
@@ -333,14 +334,21 @@ pub fn c07_payload(p: &[u8], out: &mut Vec<Viol>, counts: &mut Counts) {
     }
     // fixed buffers: OutOfMemory exactly when the frame does not fit
     let fl = f.len();
+    // every capacity up to ENC_CAP_MAX is instantiated for the encoder; beyond it the boundary
+    // capacities of CAPS
+    let has = |n: usize| n <= crate::enc_caps::ENC_CAP_MAX || CAPS.contains(&n);
     let caps: Vec<usize> = if p.len() <= 6 {
-        CAPS.iter().copied().filter(|&n| n <= fl + 1).collect()
+        (0..=fl + 1).filter(|&n| has(n)).collect()
     } else {
-        CAPS.iter().copied().filter(|&n| n + 2 >= fl && n <= fl + 1).collect()
+        (fl.saturating_sub(2)..=fl + 1).chain([0, fl / 2]).filter(|&n| has(n)).collect()
     };
     for n in caps {
         counts.inc("fixed-capacity encodes");
-        match with_buf(BufKind::Arr(n), EncVisit { p }).unwrap() {
+        let r = match crate::enc_caps::encode_arr(n, p) {
+            Some(r) => r,
+            None => with_buf(BufKind::Arr(n), EncVisit { p }).unwrap(),
+        };
+        match r {
             Ok(Ok(v)) => {
                 if n < fl {
                     bad("C07 encode into a too small ArrayBuf succeeds", format!("N={} frame length {}", n, fl));
